@@ -1,6 +1,7 @@
 package props
 
 import (
+	"strings"
 	"testing"
 
 	"github.com/hashicorp/hcl/v2"
@@ -214,6 +215,83 @@ func TestC01_Eval(t *testing.T) {
 				judge(c, "attribute value", env, r, v, diags)
 			}
 			c.Done(r.Unspec == "" && c01Nontrivial(n, kinds, rfeat), dump+"|"+scopeTypes(sc))
+		})
+}
+
+// TestC01_Heredoc: heredoc and flush-heredoc templates built from indented lines.
+func TestC01_Heredoc(t *testing.T) {
+	hx.Run(t, "C01", "Heredoc", 12000,
+		"template in heredoc (1/3) or flush-heredoc (2/3) form whose literals are whole indented lines and line fragments, so that interpolations and directives stand at the start, in the middle and at the end of lines of differing indentation; no strip markers in 3 of 4 cases (flush heredocs with strip markers are an unspecified region); rendered as expression and as attribute value; judged by the reference interpreter (flush rule of the spec: minimum leading-space count over the lines, a line that starts with a sequence counts zero); non-trivial = flush form with >=2 lines and a sequence, specified outcome; distinct by (AST dump, scope types)",
+		func(c *hx.Case) {
+			t := c.T
+			sc := gen.DrawScope(t, gen.ScopeOpts{Nulls: 12})
+			nostrip := rapid.IntRange(0, 3).Draw(t, "nostrip") > 0
+			g := gen.NewEG(t, sc, gen.ExprOpts{IllTyped: 12, HeredocLines: true, NoStrip: nostrip, Budget: 10})
+			tn := g.HeredocTemplate()
+			var n ast.Node = tn
+			dump := ast.Dump(n)
+			c.Set("ast", dump)
+			c.Set("scope", scopeDump(sc))
+			switch tn.Form {
+			case ast.FlushHeredoc:
+				c.Class("form_flush_heredoc")
+			case ast.Heredoc:
+				c.Class("form_heredoc")
+			default:
+				c.Class("form_quoted_fallback")
+			}
+			featClassesN(c, "gen_", g.Feat)
+			env := refEnv(sc)
+			r := ref.Eval(n, env)
+			switch {
+			case r.Unspec != "":
+				c.Class("outcome_unspecified")
+				c.Unspecified(r.Unspec)
+			case r.Err:
+				c.Class("outcome_error")
+			default:
+				c.Class("outcome_value")
+				c.Set("reference", r.V.GoString())
+			}
+			ctx := evalCtx(sc)
+			srcs, _ := drawLayouts(t, n, 1, 2)
+			for i, src := range srcs {
+				c.Set("source", src)
+				expr, diags := parseExprSrc(src)
+				if diags.HasErrors() {
+					c.Failf("parse-error", "layout %d does not parse: %s", i, diagStr(diags))
+				}
+				var v cty.Value
+				c.Guard("Value", func() { v, diags = expr.Value(ctx) })
+				if r.Unspec == "" {
+					judge(c, "expression", env, r, v, diags)
+				}
+			}
+			asrc, _ := render.AttrValue("attr", n, rchooser{t}, render.Opts{Wild: 2, CRLF: rapid.IntRange(0, 5).Draw(t, "crlf") == 0})
+			c.Set("source", asrc)
+			f, diags := hclsyntax.ParseConfig([]byte(asrc), "t.hcl", hcl.InitialPos)
+			if diags.HasErrors() {
+				c.Failf("attr-parse-error", "attribute form does not parse: %s", diagStr(diags))
+			}
+			attrs, diags := f.Body.JustAttributes()
+			if diags.HasErrors() || len(attrs) != 1 || attrs["attr"] == nil {
+				c.Failf("attr-structure", "attribute form: JustAttributes gave %d attributes: %s", len(attrs), diagStr(diags))
+			}
+			if r.Unspec == "" {
+				var v cty.Value
+				c.Guard("Value", func() { v, diags = attrs["attr"].Expr.Value(ctx) })
+				judge(c, "attribute value", env, r, v, diags)
+			}
+			lines := 0
+			seq := false
+			for _, p := range tn.Parts {
+				if l, ok := p.(ast.TLit); ok {
+					lines += strings.Count(l.Text, "\n")
+				} else {
+					seq = true
+				}
+			}
+			c.Done(r.Unspec == "" && tn.Form == ast.FlushHeredoc && lines >= 2 && seq, dump+"|"+scopeTypes(sc))
 		})
 }
 
